@@ -490,6 +490,39 @@ func c09Presence(c *Ctx) {
 				}
 			}
 		})
+		// membership through the standard library: slices.Contains(values, *Expected…) / slices.Index
+		allInstrs(m, func(ins ssa.Instruction) {
+			call, ok := ins.(*ssa.Call)
+			if !ok {
+				return
+			}
+			n := guard.CalleeName(&call.Call)
+			if !strings.HasPrefix(n, "slices.Contains") && !strings.HasPrefix(n, "slices.Index") {
+				return
+			}
+			for _, a := range call.Call.Args {
+				if u, isU := guard.Strip(a).(*ssa.UnOp); isU && u.Op == token.MUL {
+					if _, fe, ok := guard.FieldOf(u.X); ok && fe == fam.expected {
+						// its verdict must decide a failing return
+						for _, ret := range guard.Returns(m) {
+							if !guard.DefinitelyFails(ret) {
+								continue
+							}
+							for _, fct := range guard.BlockFacts(ret.Block()) {
+								if c2, _, isB := guard.BoolCallFact(fct); isB && c2 == call {
+									cmpOK = true
+								}
+								if _, x, _, isC := guard.Cmp(fct); isC {
+									if c2, _ := guard.CallOf(x); c2 == call {
+										cmpOK = true
+									}
+								}
+							}
+						}
+					}
+				}
+			}
+		})
 		r.Check(good && cmpOK, "C09.presence", key, p.FuncPos(m), "the claim check does not pass (Ignore…, Has…(), Expected…!=nil) of its own field family to validateFieldPresence and compare with *Expected… afterwards", "validateFieldPresence("+fam.ignore+", "+fam.has+"(), "+fam.expected+"!=nil); compared with *"+fam.expected)
 	}
 }
@@ -1018,10 +1051,60 @@ func c09Base64(c *Ctx) {
 					}
 				}
 			}
+			if !good {
+				// binary.BigEndian.AppendUint32(empty, id): exactly the four big-endian bytes
+				if ac, ai := guard.CallOf(data); ac != nil && ai == 0 && strings.HasSuffix(guard.CalleeName(&ac.Call), "bigEndian).AppendUint32") {
+					args := ac.Call.Args
+					base, idv := args[len(args)-2], args[len(args)-1]
+					empty := guard.IsNilConst(base)
+					if mk, isMk := guard.Strip(base).(*ssa.MakeSlice); isMk {
+						if k, isK := guard.ConstInt(mk.Len); isK && k == 0 {
+							empty = true
+						}
+					}
+					if empty && guard.Strip(idv) == idParam {
+						good = true
+					}
+				}
+			}
 			r.Check(good, "C09.kid", key, p.Pos(ins.Pos()), "a key-ID derived kid is not base64url of the fixed 4-byte big-endian key ID (the signing, verifying and JWK-export sides must agree, also for IDs with leading zero bytes)", "base64url(PutUint32(make([]byte,4), id))")
 		})
 	}
-	r.Counts["kid_encoders"] = nKid
+	// by value: the small kid helpers (uint32 [, OutputPrefixType]) -> string / *string folded
+	// on key ID 0x00000102 (leading zero bytes) must give base64url-nopad(00 00 01 02) = "AAABAg"
+	nVal := 0
+	tinkPT, _ := constOf(p, "proto/tink_go_proto", "OutputPrefixType_TINK")
+	for _, f := range p.SortedFuncs(core.Product) {
+		if !isJWTPkg(core.Rel(core.PkgOf(f))) || f.Synthetic != "" || f.Parent() != nil || f.Signature.Recv() != nil {
+			continue
+		}
+		sig := f.Signature
+		if sig.Params().Len() < 1 || sig.Params().Len() > 2 || sig.Results().Len() != 1 || !isUint32(sig.Params().At(0).Type()) {
+			continue
+		}
+		rt := sig.Results().At(0).Type()
+		if pt, isP := rt.Underlying().(*types.Pointer); isP {
+			rt = pt.Elem()
+		}
+		if bt, isB := rt.Underlying().(*types.Basic); !isB || bt.Info()&types.IsString == 0 {
+			continue
+		}
+		args := []consteval.Val{consteval.C(0x00000102)}
+		if sig.Params().Len() == 2 {
+			if core.TypeID(sig.Params().At(1).Type()) != "proto/tink_go_proto.OutputPrefixType" || tinkPT == nil {
+				continue
+			}
+			args = append(args, consteval.Val{K: consteval.Const, C: tinkPT})
+		}
+		got, why := foldString(f, 0, args...)
+		if why != "" {
+			continue
+		}
+		nVal++
+		r.Check(got == "AAABAg", "C09.kid", "C09.kid/value/"+core.FuncID(f), p.FuncPos(f),
+			fmt.Sprintf("folded on key ID 0x00000102 the kid is %q; base64url without padding of the four big-endian bytes is \"AAABAg\"", got), "kid(0x00000102) = \"AAABAg\"")
+	}
+	r.Counts["kid_encoders"], r.Counts["kid_helpers_folded"] = nKid, nVal
 	r.Min("C09.kid", 6)
 }
 
